@@ -47,7 +47,7 @@ def kinds_attach(kinds, is_env):
 def ops_for(m, rng):
     ops = []
     for t, (n, holder, idx, owner, in_arg) in enumerate(targets(m)):
-        if n.kind in ('cmd', 'env') and n.name != 'item':
+        if n.kind in ('cmd', 'env'):
             ops.append(['rename', t, rng.choice(NEW_NAMES)])
         if string_settable(n):
             ops.append(['set_string', t, rng.choice(NEW_STRINGS)])
